@@ -172,7 +172,7 @@ def run(tier: str) -> Check:
     repo, _ = fill(check, tier, floors={"parse_paths": 100, "skeleton_paths": 100})
     component_coverage(check, repo)
     state_fields(check, repo)
-    check.floor("state_field_writes", 8)
+    check.floor("state_field_writes", 2)  # a vacuity guard, not a census
     from .c09 import rep_invariant
 
     rep_invariant(check, repo, tier)  # restore() hands back exactly the snapshot (shared with C09)
